@@ -1,5 +1,71 @@
-/- Driver.Placeholder — line protocol of the `placeholder` sub-harness (stub until the unit is built). -/
-import Ioc.Basic
+/-
+  Driver.Placeholder — line protocol of the `placeholder` sub-harness (C16).
+    in :  `<tagstr-hex> <cfg>`     cfg = one value in prefix form, always a map at top level:
+            Z null | T | F | S<hex> string | N<hex> number text | L<k> v1 … vk | M<k> K<hex> v1 … K<hex> vk
+          (bare `S`/`N`/`K` = empty text)
+    out:  `<tagval-hex>` | `err` | `panic` | `opaque` | `hang`
+-/
+import Ioc.Placeholder
 namespace Driver.Placeholder
-def handle (_line : String) : String := "unimplemented"
+open Ioc Ioc.Placeholder
+
+def hexArg (t : String) : Option Bytes :=
+  let h := (t.drop 1).toString
+  if h.isEmpty then some [] else fromHex h
+
+mutual
+  def parseVal : Nat → List String → Option (CVal × List String)
+    | 0, _ => none
+    | _, [] => none
+    | fuel + 1, tok :: rest =>
+      match tok.toList with
+      | ['Z'] => some (.null, rest)
+      | ['T'] => some (.bool true, rest)
+      | ['F'] => some (.bool false, rest)
+      | 'S' :: _ => (hexArg tok).map fun b => (.str b, rest)
+      | 'N' :: _ => (hexArg tok).map fun b => (.num b, rest)
+      | 'L' :: _ =>
+        match (tok.drop 1).toString.toNat? with
+        | some k => (parseList fuel k rest).map fun (xs, r) => (.list xs, r)
+        | none => none
+      | 'M' :: _ =>
+        match (tok.drop 1).toString.toNat? with
+        | some k => (parsePairs fuel k rest).map fun (kvs, r) => (.map kvs, r)
+        | none => none
+      | _ => none
+  def parseList : Nat → Nat → List String → Option (List CVal × List String)
+    | 0, _, _ => none
+    | _, 0, toks => some ([], toks)
+    | fuel + 1, k + 1, toks =>
+      match parseVal fuel toks with
+      | some (v, r) => (parseList fuel k r).map fun (vs, r') => (v :: vs, r')
+      | none => none
+  def parsePairs : Nat → Nat → List String → Option (List (Bytes × CVal) × List String)
+    | 0, _, _ => none
+    | _, 0, toks => some ([], toks)
+    | _, _ + 1, [] => none
+    | fuel + 1, k + 1, kt :: toks =>
+      match kt.toList, hexArg kt with
+      | 'K' :: _, some key =>
+        match parseVal fuel toks with
+        | some (v, r) => (parsePairs fuel k r).map fun (kvs, r') => ((key, v) :: kvs, r')
+        | none => none
+      | _, _ => none
+end
+
+def showRes : Res → String
+  | .value s => toHex s
+  | .error => "err"
+  | .panic => "panic"
+  | .opaque => "opaque"
+  | .outOfFuel => "hang"
+
+def handle (line : String) : String :=
+  match line.splitOn " " with
+  | th :: toks =>
+    match fromHex th, parseVal (2 * toks.length + 2) toks with
+    | some s, some (.map cfg, []) => showRes (process cfg s)
+    | _, _ => "bad-line"
+  | _ => "bad-line"
+
 end Driver.Placeholder
